@@ -112,6 +112,11 @@ class DecoderFacts:
             if a[0] == "cmp" and a[2] == "==" and self._is_bin_byte(a[1]):
                 out.append(("ev", "tag"))
                 self.tag_edges.append((node, label, a[3], a[1][2]))
+            elif a[0] == "cmp" and a[2] in ("<=", "<") and self._is_bin_byte(a[1]) and isinstance(a[3], int) and a[3] <= 8:
+                # an (unsigned) input byte bounded to a handful of values: each of 0..k is a known value
+                out.append(("ev", "tag"))
+                for v in range(0, a[3] + (1 if a[2] == "<=" else 0)):
+                    self.tag_edges.append((node, label, v, a[1][2]))
         return out
 
     def _gen(self, node, s, pre=None):
@@ -803,6 +808,66 @@ def rule_enc_norm(ctx, prog, chk):
     return n
 
 
+FIELD_DEC = re.compile(r"^fp\d+_read_bin$")
+UNPACK = re.compile(r"^fp\d+_(upk|back_cyc)$")
+
+
+def rule_dec_unpack(ctx, prog, chk):
+    """DEC-UNPACK: a field decoder that decompresses (fpN_upk, fpN_back_cyc) returns normally only after a validity
+    verdict on the decompressed element has been examined: the verdict of fpN_upk, or fpN_test_cyc of the result.
+    Decompression computes the missing coordinates from *any* input; without the test arbitrary bytes decode, without
+    error, to an element outside the subgroup that has a compressed form"""
+    n = 0
+    for fn in prog.all:
+        if not FIELD_DEC.match(fn.name.split("__")[-1]):
+            continue
+        sites = [(el, c) for el in fn.all_elements() for c in ir.calls_in(fn, el.e) if c[1] and UNPACK.match(c[1].split("__")[-1])]
+        if not sites:
+            continue
+        g = ctx.xcfg(prog, fn)
+
+        def gen(node, s, pre):
+            if any(c[1] and UNPACK.match(c[1].split("__")[-1]) for c in ir.calls_in(fn, node.el.e)):
+                return [("ev", "unpacked")]
+            return []
+
+        def edge_gen(node, label, atoms):
+            for a in atoms:
+                if a[0] == "cmp" and isinstance(a[1], tuple) and a[1][0] == "c" and isinstance(a[1][1], str) and re.search(r"_(upk|test_cyc)$", a[1][1]) \
+                        and engines.entails(a[2], a[3], "!=", 0):
+                    return [("ev", "validated")]
+            return []
+        F = Facts(prog, g, gen=gen, edge_gen=edge_gen, mark_thrown=True)
+        bad = None
+        for p, st in engines.normal_exit_states(F, g):
+            if ("ev", "unpacked") in st and ("ev", "validated") not in st:
+                bad = p
+        # must-facts: a path that decompressed may be joined with paths that did not; decide per accepted length instead
+        if bad is None:
+            obj, binv, lenv = codec_params(fn) or (None, None, None)
+            lens = set()
+            if lenv is not None:
+                for nd in g.nodes:
+                    if nd.kind == "br":
+                        t = nd.info.get("term")
+                        if t and t.get("c") is not None:
+                            for a in engines.cond_atoms(fn, t["c"], True) + engines.cond_atoms(fn, t["c"], False):
+                                if a[0] == "cmp" and a[1] == ("v", lenv) and isinstance(a[3], int):
+                                    lens.add(a[3])
+            for L in sorted(lens):
+                FL = Facts(prog, g, gen=gen, edge_gen=edge_gen, mark_thrown=True, follow=engines.world_follow(fn, ("v", lenv), L))
+                for p, st in engines.normal_exit_states(FL, g):
+                    if ("ev", "unpacked") in st and ("ev", "validated") not in st:
+                        bad = p
+        n += 1
+        if bad is None:
+            chk.ok("DEC-UNPACK", fn, "valid", "every normal return after a decompression has examined fpN_upk's verdict or fpN_test_cyc", line=fn.line)
+        else:
+            chk.fail("DEC-UNPACK", fn, "valid", "a normal return is reachable after `%s` without the verdict of the decompression (or fpN_test_cyc of its result) having been examined: "
+                     "arbitrary bytes decode without error to an element that has no compressed form" % sites[0][1][1], line=sites[0][0].line)
+    return n
+
+
 PCK = re.compile(r"^(ep\d*)_(pck|upk)$")
 
 
@@ -944,7 +1009,8 @@ def analyse(ctx, prog, chk):
     nen = rule_enc_norm(ctx, prog, chk)
     ndd = rule_dec_def(ctx, prog, chk, info)
     nps = rule_pck_sib(ctx, prog, chk)
-    return {"decoders": len(decs), "point_decoders": npoint, "encoders": len(encs), "len_agree": nla, "range": nr, "nf": nnf, "enc_norm": nen, "dec_def": ndd, "pck_sib": nps}
+    ndu = rule_dec_unpack(ctx, prog, chk)
+    return {"decoders": len(decs), "point_decoders": npoint, "encoders": len(encs), "len_agree": nla, "range": nr, "nf": nnf, "enc_norm": nen, "dec_def": ndd, "pck_sib": nps, "dec_unpack": ndu}
 
 
 def selfcheck(ctx, prog, chk):
@@ -959,6 +1025,7 @@ def run(ctx, chk):
     chk.floor("ENC-LEN", "*_write_bin/_write_str encoders (BASE)", c["encoders"], 22)
     chk.floor("LEN-AGREE", "size/read/write triples (BASE)", c["len_agree"], 15)
     chk.floor("RANGE-FP", "fp_read_bin, fb_read_bin, fb_read_str", c["range"], 3)
+    chk.floor("DEC-UNPACK", "field decoders that decompress", c["dec_unpack"], 6)
     chk.floor("PCK-SIB", "compression / decompression pairs that convert y", c["pck_sib"], 2)
     chk.floor("DEC-DEF", "point decoders", c["dec_def"], 7)
     chk.floor("ENC-NORM", "point encoders that normalise", c["enc_norm"], 5)
